@@ -1573,6 +1573,37 @@ def tril(m, k=0):
     return Opaque(m.shape)
 
 
+triu = tril
+
+
+def tri(n, m=None, k=0, dtype=None):
+    return Opaque((int(n), int(n if m is None else m)))
+
+
+def eye(n, m=None, **kw):
+    return Opaque((int(n), int(n if m is None else m)))
+
+
+identity = eye
+
+
+def dot(a, b):
+    if isinstance(a, Opaque) or isinstance(b, Opaque):
+        return _odot(a, b)
+    a, b = _arr(a), _arr(b)
+    if isinstance(a, SArray) and isinstance(b, SArray):
+        if len(a) != len(b):
+            raise ValueError("shapes (%d,) and (%d,) not aligned" % (len(a), len(b)))
+        t = 0
+        for x, y in zip(a.items, b.items):
+            t = t + _num(x) * _num(y)
+        return t
+    raise Unsupported("np.dot of these operands")
+
+
+matmul = dot
+
+
 def diag(v, k=0):
     n = len(v)
     return Opaque((n, n))
